@@ -299,8 +299,13 @@ def run(tier, seed, replay_path=None):
             if expect and expect not in r.violated:
                 raise Machinery(f"variant {v} not refuted by {expect}")
         behs = gen_behaviours(wd, o, "trans", 6, view=True)
-        behs += gen_behaviours(wd, o, "paths", 3 if deep else 2, view=False,
+        paths = gen_behaviours(wd, o, "paths", 3 if deep else 2, view=False,
                                queries=None if deep else ["chains", "expand", "modes", "print", "aliases", "model_aliases"])
+        if len(paths) > 40000:
+            # all 524 160 three-step behaviours over the 19 queries are enumerated by TLC; 40 000 of them (seeded) are replayed
+            o.notes["paths_enumerated"] = len(paths)
+            paths = rng.sample(paths, 40000)
+        behs += paths
         behs += gen_behaviours(wd, o, "paths", 10, view=False, simulate=3000 if deep else 250, seed=seed)
         if replay_path:
             c = json.load(open(replay_path))["case"]
